@@ -234,3 +234,11 @@ reg("C43", "enum", "Every history (readiness pattern of the mocked method of len
     "mock values and effect counts are compared with a reference computed from the history alone.",
     "bounded-exhaustive enumeration of stimulus histories, each executed on the real simulator processes and compared with a reference",
     note="Trusts Amaranth's simulator scheduling; histories bounded as listed.")
+
+reg("C34", "enum", "A design with eight log records (top level / under m.If / inside a method body / string and signed formats / no fields "
+    "/ ERROR / assertion / a record after the ERROR ones, three logger names) simulated with the real make_logging_process for every "
+    "input history (length 1 full alphabet x three level/namespace filters; length 2, 3 thorough); a logging.Handler collects (cycle, "
+    "logger, level, message), compared with a reference list built with Python's str.format; the first ERROR must call on_error once "
+    "and end the run with a failure.",
+    "bounded-exhaustive enumeration of stimulus histories, each executed on the real simulator processes and compared with a reference",
+    note="Trusts Amaranth's simulator; one fixed design with eight records; 2-bit fields.")
